@@ -6,6 +6,7 @@ R18.2  the template is never consumed: no mutating call has `repl` as receiver (
        substitution works on `repl_ = repl.copy()` created in the same iteration before any use of `repl_`.
 R18.3  counts: exactly one `total_count += 1` per performed `matched.replace(repl_, ...)` on every path.
 R18.5  the index recorded for a template slot inside a list field enumerates that field itself (unfiltered) or is the node's link index.
+R18.6  a slot filled by a raw text splice (no node-level put) is followed by a refresh of the value of the node whose text changed.
 R18.4  a per-location budget (`loop`) consumed while one location is rewritten is restored on every path that leaves the location.
 Not decided: structural equality with a reference transformer; the remaining nested / count / loop semantics.
 """
@@ -130,6 +131,7 @@ def run(ctx):
 # ---- R18.4 -----------------------------------------------------------------------------------------------------------
     check_budget(ctx)
     check_slot_indices(ctx)
+    check_text_slot_refresh(ctx)
 
 
 def check_budget(ctx):
@@ -270,3 +272,66 @@ def check_slot_indices(ctx):
                       sample={'function': fi.key, 'slot': f"('{field}', {idx})", 'binding': how})
     if n < 3:
         raise AnalysisError(f'only {n} indexed template slots found')
+
+
+# ---- R18.6 -----------------------------------------------------------------------------------------------------------
+
+def check_text_slot_refresh(ctx):
+    """The substitution driver fills most slots with node-level puts, which keep tree and text together.  A slot it fills with a raw
+    text splice (`<tree>._put_src(...)`, positions of the other nodes are offset but no node is told that its own text changed) lies
+    inside a value-bearing leaf (slots inside string literals): before the iteration ends the value of that node has to be re-derived
+    from the new text (a store to `.value`, or a `_reparse*` call), otherwise the tree keeps the placeholder text as value."""
+    from ..struct import parent_map
+    ctx.rule('R18.6', 'in the substitution driver a raw text splice is followed, before the iteration ends, by a store to the `.value` of '
+                      'the node whose text changed (or a reparse)', 1)
+    n_inst = 0
+    for fi in ctx.repo.all_funcs():
+        if fi.module != 'match' or isinstance(fi.node, ast.Lambda) or not (fi.name == 'subn' or fi.name.startswith('_sub')):
+            continue
+        splices = [x for x in walk_no_nested(fi.node) if isinstance(x, ast.Call) and call_name(x) == '_put_src' and isinstance(x.func, ast.Attribute)]
+        if not splices:
+            continue
+        cfg = CFG(fi.node)
+        par = parent_map(fi.node)
+
+        def refreshes(x):
+            if isinstance(x, ast.Assign) and any(isinstance(t, ast.Attribute) and t.attr == 'value' for t in x.targets):
+                return True
+            if isinstance(x, ast.Call) and (call_name(x) or '').startswith('_reparse'):
+                return True
+            return False
+
+        def node_of(call):
+            for nd in cfg.nodes:
+                if any(x is call for x in subnodes(cfg, nd)):
+                    return nd
+            raise AnalysisError(f'{fi.qualname}: no CFG node for {norm(call, 60)}')
+
+        for call in splices:
+            n_inst += 1
+            nd = node_of(call)
+            enclosing = set()
+            cur = call
+            while cur in par:
+                cur = par[cur]
+                if isinstance(cur, (ast.For, ast.AsyncFor, ast.While)):
+                    enclosing.add(cur)
+            stop = set()
+            for m in cfg.nodes:
+                if any(refreshes(x) for x in subnodes(cfg, m)):
+                    stop.add(m.id)
+                lp = m.ast if m.kind == 'iter' else m.info.get('owner') if m.info.get('loop') else None
+                # a later loop (not around the splice) that stores values in its body is the refresh itself
+                if lp is not None and lp not in enclosing and any(refreshes(x) for x in ast.walk(lp)):
+                    stop.add(m.id)
+            reach = cfg.reachable(nd.id, lambda n_, lab, s_: lab != 'exc', stop=stop)
+            ends = {m.id for m in cfg.nodes if (m.ast if m.kind == 'iter' else m.info.get('owner') if m.info.get('loop') else None) in enclosing}
+            ends.add(cfg.exit)
+            leaks = sorted((reach - stop) & ends)
+            ctx.check('R18.6', not leaks, fi.module, fi.qualname, f'text splice {norm(call.func)}(...) without value refresh',
+                      f'`{norm(call, 70)}` changes the text inside a literal and the iteration can end (line '
+                      f'{cfg.nodes[leaks[0]].lineno if leaks and cfg.nodes[leaks[0]].ast is not None else 0}) without storing the new '
+                      f'`.value`: source and tree disagree about the string (verify() fails)', call.lineno,
+                      sample={'function': fi.key, 'splice': norm(call, 80)})
+    if n_inst < 1:
+        raise AnalysisError('no raw text splice found in the substitution driver')
